@@ -235,6 +235,8 @@ class UnitBuilder:
 
     # ---- items -----------------------------------------------------------
     def emit_item(self, f, kind, name, opts, tline):
+        if any(i['kind'] == kind and i['name'] == name for i in self.items):
+            return   # already emitted through another include
         s = self.src(f)
         try:
             hs, kw, bo, bc = s.find_item(kind, name)
@@ -512,6 +514,12 @@ class UnitBuilder:
                     raise rsx.ScanError('loop %s iter: no `in`' % a[1])
                 return [(lp['kw_pos'] + m.end(), a[3] + ': ')]
             raise rsx.ScanError('unknown loop anchor ' + anchor)
+        if a[0] in ('after-stmt', 'before-stmt'):
+            st = B.stmts()
+            n = int(a[1])
+            if n < 1 or n > len(st):
+                raise rsx.ScanError('%s %d not found (function body has %d top-level statements)' % (a[0], n, len(st)))
+            return [(st[n - 1][1], '\n' + text)] if a[0] == 'after-stmt' else [(st[n - 1][0], text)]
         if a[0] in ('before-continue', 'before-return'):
             lst = B.continues if a[0] == 'before-continue' else B.returns
             n = int(a[1])
